@@ -51,6 +51,23 @@ pub fn reset() {
     });
 }
 
+/// Number of wakers in the environment's books whose data pointer lies in `[base, base+size)`.
+fn held_into(base: usize, size: usize) -> usize {
+    let inside = |w: &std::task::Waker| {
+        let a = w.data() as usize;
+        a >= base && a < base + size
+    };
+    crate::world::WORLD.with(|w| match w.try_borrow() {
+        Ok(w) => {
+            w.children.iter().filter_map(|c| c.stored.as_ref()).filter(|w| inside(w)).count()
+                + w.wakers.iter().filter(|h| inside(&h.waker)).count()
+                + w.owed.iter().filter(|h| inside(&h.waker)).count()
+                + w.trash.iter().filter(|w| inside(w)).count()
+        }
+        Err(_) => 0,
+    })
+}
+
 fn find_live(p: &mut ProbeState, addr: usize) -> Option<usize> {
     p.blocks
         .iter()
@@ -100,10 +117,16 @@ fn handler(e: &Event) {
                             return Some("double-release");
                         }
                         b.released = 1;
-                        if b.shadow != 0 {
+                        // The environment owns every child waker that exists outside the crate:
+                        // none of them may point into a block that is being released, and the
+                        // owning collection must be gone. (Counted from the harness' own books,
+                        // not from the clone/drop probes, so that a refactoring that moves the
+                        // reference counting around cannot cause a false alarm.)
+                        let held = held_into(b.base, b.size);
+                        if held > 0 || b.handle_alive {
                             let d = format!(
-                                "waker block cap={} released while {} references are outstanding",
-                                b.cap, b.shadow
+                                "waker block cap={} released while {} wakers of the environment still point into it (collection handle alive: {})",
+                                b.cap, held, b.handle_alive
                             );
                             p.errors.push(("release-while-referenced", d));
                         }
@@ -128,15 +151,11 @@ fn handler(e: &Event) {
                     match find_live(p, item) {
                         Some(i) => {
                             let b = &mut p.blocks[i];
+                            // informational only (shown in leak reports)
                             match op {
                                 WakerOp::Clone => b.shadow += 1,
                                 WakerOp::Drop => b.shadow -= 1,
                                 _ => {}
-                            }
-                            if b.shadow < 0 {
-                                let d = format!("waker block cap={}: more drops than references", b.cap);
-                                p.errors.push(("refcount-underflow", d));
-                                return Some("refcount-underflow");
                             }
                             None
                         }
